@@ -3,6 +3,7 @@
 package report
 
 import (
+	"sync/atomic"
 	"encoding/json"
 	"fmt"
 	"hash/fnv"
@@ -110,11 +111,21 @@ func (c *Collector) Count(name string, n int64) {
 type Local struct {
 	Counters map[string]int64
 	Hashes   map[uint64]struct{}
+	// Prog, when set by the scheduler of the work items, is advanced on every Count: the watchdog's
+	// notion of progress is "some counter moved", not "a whole work item finished".
+	Prog *int64
+	// Doing describes what the worker is busy with (for the watchdog's report).
+	Doing atomic.Value
 }
 
 func NewLocal() *Local { return &Local{Counters: map[string]int64{}, Hashes: map[uint64]struct{}{}} }
 
-func (l *Local) Count(name string, n int64) { l.Counters[name] += n }
+func (l *Local) Count(name string, n int64) {
+	l.Counters[name] += n
+	if l.Prog != nil {
+		atomic.AddInt64(l.Prog, 1)
+	}
+}
 
 // OutcomeHash records a non-trivial outcome by a precomputed hash.
 func (l *Local) OutcomeHash(h uint64) { l.Hashes[h] = struct{}{} }
